@@ -114,6 +114,25 @@ def _pw(case, rec, rng):
             rec.check("semilocal_usp[%s]" % mode, float(np.max(np.abs(ratio - 1))), 1e-9,
                       mechanism="SemilocalSettings[%s].get_feat_usps" % mode, detail={"lam": lam})
             rec.nontrivial("sl|%s|%d" % (mode, nspin))
+    # density tails (1e-7 .. 1e-3, far above the 1e-10 cutoffs): the reduced gradient keeps its declared power up to the
+    # documented 1e-16 regulariser of its denominator, whose relative weight is 1e-16 / (b rho^(4/3)) (7e-8 at 1e-7) -
+    # added after a seeded change that moved the regulariser into the squared denominator (2.5 % at rho = 1e-6)
+    bconst = 2 * (3 * np.pi ** 2) ** (1.0 / 3)
+    for nspin in (1, 2):
+        rho = gen.pointwise_rho(rng, n, nspin=nspin, lo=1e-7, hi=1e-3)
+        lam_t = float(np.exp(rng.uniform(np.log(0.5), np.log(2.0))))
+        rl = _scale_rho(rho, lam_t)
+        for mode in ("npa", "np"):
+            sset = st.SemilocalSettings(mode)
+            p = SemilocalPlan(sset, nspin)
+            f1, f2 = p.get_feat(rho), p.get_feat(rl)
+            usps = np.asarray(sset.get_feat_usps(), dtype=float)
+            dev = np.abs(f2[:, 1] / (f1[:, 1] * lam_t ** usps[1]) - 1)
+            rmin = np.minimum(rho[:, 0], rl[:, 0])      # the regulariser acts on the per-spin density
+            allowed = 1e-9 + 4 * 2e-16 / (bconst * rmin ** (4.0 / 3))
+            rec.check("reduced_gradient_usp_in_tails[%s]" % mode, float(np.max(dev / allowed)), 1.0,
+                      mechanism="SemilocalSettings[%s]:s2-power-in-density-tails" % mode, detail={"lam": lam_t, "nspin": nspin})
+            rec.nontrivial("tail|%s|%d" % (mode, nspin))
     # settings classes: declared powers + recommended normalisers -> power 0 for nonlocal features; normalisers scale
     fam = FAMS[case["idx"] % len(FAMS)]
     fs = gen.family_settings(fam, rng)
